@@ -235,7 +235,7 @@ def run():
     st = common.run_pool("monitors.c08:handle", cases, col, cpu_budget=20.0)
     c = col.counts
     # totals through the CLI
-    tot = cli_props.run_totals(r, n_docs=4 if quick else 24, seed=common.seed())
+    tot = cli_props.run_totals(r, n_docs=8 if quick else 32, seed=common.seed())
     for need in ("changed_pairs", "gas_states"):
         if c.get(need, 0) == 0:
             r.inconclusive.append("!never reached: " + need)
